@@ -25,3 +25,12 @@ Lemma tie_c10_process : f_c10_skel_process =
 Lemma tie_c10_dispatch : f_c10_skel_dispatch =
   "e.handlersMutex.Lock();defer e.handlersMutex.Unlock();if(len(e.handlers) == 0){return};range(e.handlers){if(h == nil){continue};h.filter(&msg.Header);if(matched){select{send h.consumer{}|default{if(msg.Header.Type == Call){e.Send(NewMessage(hdr, buf.Bytes()))}}}};if(!keep){h.closeWith(nil);set e.handlers[i]=nil}};return".
 Proof. reflexivity. Qed.
+
+(* the handler flavours built on MakeHandler (send-then-end cases of C10Run: an AddHandler is replayed as an
+   LMake with a queue of 10 whose consumer takes a message, LRecv, each time the callback is entered):
+   AddHandler's goroutine ranges over the queue until it is CLOSED - it has no other way out, so whatever was
+   queued reaches the consumer; ReceiveAny is MakeHandler with its own one-shot filter and a nil closer;
+   Handler.closeWith calls the closer (if any), then closes the queue                   -> close_with *)
+Lemma tie_c10_AddHandler : f_c10_skel_AddHandler = "go{range(ch){c(msg)}};return e.MakeHandler(f,ch,cl)". Proof. reflexivity. Qed.
+Lemma tie_c10_ReceiveAny : f_c10_skel_ReceiveAny = "e.MakeHandler(filter,consumer,nil);return". Proof. reflexivity. Qed.
+Lemma tie_c10_Handler_closeWith : f_c10_skel_Handler_closeWith = "if(h.closer != nil){h.closer(err)};close(h.consumer)". Proof. reflexivity. Qed.
